@@ -403,7 +403,7 @@ def shutter_reply(rnd):
 
 def thermostat_reply(rnd, on=None, mode=None, target=None, fan=None, swing=None, remote=b"ELEC7022"):
     b = bytearray(rand_bytes(rnd, rnd.choice([96, 109, 120])))
-    b[76:78] = struct.pack("<H", rnd.randrange(0, 500))
+    b[76:78] = struct.pack("<H", rnd.choice([rnd.randrange(0, 500)] * 4 + [0, 500, 501, 999, 0xfff1, 0xffff]))          # the room may be freezing, or the sensor absent
     b[78] = (rnd.randrange(2) if on is None else int(on))
     b[79] = rnd.choice([1, 2, 3, 4, 5, 4, 5, 9]) if mode is None else mode
     b[80] = rnd.randrange(16, 31) if target is None else target
@@ -624,6 +624,7 @@ async def feed_bridge(n_ports, events, raising=(), show=None, sentinel=None, ser
     import socket, warnings
     from aioswitcher.bridge import SwitcherBridge
     ports = list(ports) if ports else free_udp_ports(n_ports); log = []; handler = []; seen_sentinel = set()
+    feed_bridge.calls = getattr(feed_bridge, "calls", 0) + 1; keep = feed_bridge.calls % 2 == 0; kept = []          # every other bridge: objects kept instead of overwritten
     loop = asyncio.get_running_loop()
     old = loop.get_exception_handler()
     loop.set_exception_handler(lambda l, ctx: handler.append(type(ctx.get("exception")).__name__))
@@ -631,7 +632,9 @@ async def feed_bridge(n_ports, events, raising=(), show=None, sentinel=None, ser
         if dev.name.startswith("SENTINEL"):
             seen_sentinel.add(dev.name); return
         k = len(log); log.append(show(dev))
-        scribble(dev)
+        if keep: kept.append((k, dev))          # this consumer queues the objects it is handed and reads them later: each still says what it said on arrival
+        else: scribble(dev)
+        if k not in raising and k % 5: return [None, True, False, 1, "done", dev][k % 6]          # what a callback returns is its own business (a registry's `is_new`, a count)
         if k in raising: raise [KeyError, ConnectionRefusedError, TimeoutError, ValueError, BrokenPipeError, OSError, RuntimeError][k % 7]("user callback failure %d" % k)
     bridge = SwitcherBridge(cb, list(ports)) if ports != WELL_KNOWN_PORTS else SwitcherBridge(cb)        # the default port list of the library (else: a list of its own)
     tx = socket.socket(socket.AF_INET, socket.SOCK_DGRAM)
@@ -689,6 +692,10 @@ async def feed_bridge(n_ports, events, raising=(), show=None, sentinel=None, ser
         finally:
             await bridge.stop(); tx.close(); await asyncio.sleep(0)
             loop.set_exception_handler(old)
+        for k, dev in kept:
+            try: later = show(dev)
+            except Exception as e: later = "unreadable: " + type(e).__name__
+            if later != log[k]: log[k] += " (the object, read again after later broadcasts, says: %s)" % later
         nwarn = len([x for x in w if "unknown" in str(x.message)])
         feed_bridge.other_warnings = [str(x.message)[:120] for x in w if "unknown" not in str(x.message) and not issubclass(x.category, ResourceWarning)]      # any other warning raised while the bridge ran
     return log, len(handler), nwarn, complete
